@@ -24,7 +24,7 @@ for p in props:
         rows.append('| %s | no | — | — | — | not built yet |' % cid)
         continue
     cfgs = [json.load(open(f))] + [json.load(open(g)) for g in sorted(glob.glob(os.path.join(root, 'checks', cid + '.*.json')))]
-    names = sum([c.get('props_files', []) for c in cfgs], []) or [cid]
+    names = list(cfgs[0].get('props_files', [cid])) + sum([c.get('props_files', []) for c in cfgs[1:]], [])
     nthm = 0
     for n in dict.fromkeys(names):
         pf = os.path.join(root, 'coq', 'Props', n + '.v')
